@@ -221,5 +221,9 @@ func workerMain(args []string) int {
 	if len(args) > 0 && args[0] == "c18" {
 		return c18Worker(args[1:])
 	}
+	if len(args) > 0 && args[0] == "replay" {
+		yqlib.InitExpressionParser()
+		return replayWorker(args[1:])
+	}
 	return 2
 }
